@@ -7,6 +7,7 @@ Theorem: soundness of the analysis for all IR programs; on the regenerated IR, f
 Tie    : structured fuzz of the real parse methods; every observed escape must be a member of the escape set the
          analysis computes (site level: deepest jsonargparse frame + class), and is judged against Spec/C03ChannelSpec.
 """
+import copy
 import json
 import os
 
@@ -341,7 +342,9 @@ def gen_object(rng, shape):
     obj = {}
     for _ in range(rng.choice([1, 1, 2, 3])):
         name = gen_name(rng, shape)
-        val = rng.choice(PYVALS) if rng.random() < 0.8 else gen_value(rng)
+        # a private copy: the entries of PYVALS are templates (nesting below one of them must not write into the template,
+        # let alone into itself)
+        val = copy.deepcopy(rng.choice(PYVALS)) if rng.random() < 0.8 else gen_value(rng)
         if rng.random() < 0.5 and "." in name and not name.startswith(".") and ".." not in name and not name.endswith("."):
             parts = name.split(".")
             cur = obj
@@ -362,7 +365,7 @@ def gen_object(rng, shape):
     if r < 0.08:
         return {"$": "ns", "v": obj}
     if r < 0.12:
-        return {"$": "items", "v": [[rng.choice([1, None, 2.5, True]), rng.choice(PYVALS)]]}
+        return {"$": "items", "v": [[rng.choice([1, None, 2.5, True]), copy.deepcopy(rng.choice(PYVALS))]]}
     return obj
 
 
@@ -550,6 +553,10 @@ def generate(rng, tier):
     while len(cases) < 2 * n + 100 and tries < 10 * n:
         tries += 1
         c = gen_case(rng)
+        try:
+            json.dumps(c)
+        except (ValueError, TypeError):  # a case must be plain JSON (it is sent to the runner and written to replays): drop it
+            continue
         for x in (False, True):
             cx = dict(c, x=x)
             k = json.dumps(cx, sort_keys=True)
